@@ -227,6 +227,11 @@ def assignments(atoms, ctx, limit=1 << 14):
 def subst_value(v, mp, ctx):
     if isinstance(v, RF):
         return v.subst(mp, ctx)
+    if isinstance(v, Sym) and isinstance(v.key, tuple) and v.key and v.key[0] == "ite":
+        c = ev(v.key[1], ctx.known)
+        if c is not None:
+            return subst_value(v.key[2] if c else v.key[3], mp, ctx)
+        return v
     if isinstance(v, tuple):
         return tuple(subst_value(x, mp, ctx) for x in v)
     if isinstance(v, ListV):
